@@ -45,7 +45,7 @@ def budget(tier):
 def strategy(tier):
     return st.builds(
         lambda g, f, a, b, cache, cp: {"g": g, "f": f, "unlink": [a % g["nv"], b % g["nv"]], "cache": cache, "copy": cp},
-        st.one_of(graphs.graph_descs(), graphs.graph_descs(classes=11, wide=True), graphs.graph_descs(classes=11, wide=True, min_v=2, min_e=2), graphs.eq_graph_descs()),
+        st.one_of(graphs.graph_descs(), graphs.graph_descs(classes=12, wide=True), graphs.graph_descs(classes=12, wide=True, min_v=2, min_e=2), graphs.eq_graph_descs()),
         graphs.edge_filter_specs,
         st.integers(0, 7),
         st.integers(0, 7),
